@@ -7,6 +7,7 @@
  */
 
 #include <iostream>
+#include <vector>
 
 #include "writer.h"
 
@@ -49,16 +50,17 @@ void CDNS::GzipCborOutputWriter::close()
 int CDNS::GzipCborOutputWriter::write_gzip(std::size_t in_size, int action)
 {
     std::size_t size = in_size + in_size / 3 + 128;
-    uint8_t buff[size];
+    // Output buffer on the heap: its size depends on the size of the data given by the caller
+    std::vector<uint8_t> buff(size);
 
     // Set output buffer
-    m_gzip.next_out = buff;
+    m_gzip.next_out = buff.data();
     m_gzip.avail_out = size;
 
     // Compress data to output
     int ret = deflate(&m_gzip, action);
     if (ret == Z_OK || ret == Z_STREAM_END)
-        m_writer->write(reinterpret_cast<const char*>(buff), sizeof(buff) - m_gzip.avail_out);
+        m_writer->write(reinterpret_cast<const char*>(buff.data()), size - m_gzip.avail_out);
     else
         throw CborOutputException("Couldn't write to output file!");
 
@@ -102,16 +104,17 @@ void CDNS::XzCborOutputWriter::close()
 lzma_ret CDNS::XzCborOutputWriter::write_lzma(std::size_t in_size, lzma_action action)
 {
     std::size_t size = in_size + in_size / 3 + 128;
-    uint8_t buff[size];
+    // Output buffer on the heap: its size depends on the size of the data given by the caller
+    std::vector<uint8_t> buff(size);
 
     // Set output buffer
-    m_lzma.next_out = buff;
+    m_lzma.next_out = buff.data();
     m_lzma.avail_out = size;
 
     // Compress data to output
     lzma_ret ret = lzma_code(&m_lzma, action);
     if (ret == LZMA_OK || ret == LZMA_STREAM_END)
-        m_writer->write(reinterpret_cast<const char*>(buff), sizeof(buff) - m_lzma.avail_out);
+        m_writer->write(reinterpret_cast<const char*>(buff.data()), size - m_lzma.avail_out);
     else
         throw CborOutputException("Couldn't write to output file!");
 
